@@ -30,6 +30,15 @@ func checkC03(p *Prog, res *Result, tier string) {
 	res.rule("C03-R11", "no record of a key's history expires on its own except the classified Event create (C17-R5): a deletion marker that the engine removes before the version it hides brings a deleted key back", 8)
 	res.rule("C03-R4", "scan attempts start from an empty receiver; partition borders stay contiguous; a failed partition fails the read (C13-R5/R6/R8)", 5)
 
+	res.rule("C03-R13", "the engine snapshot a scan reads from is a snapshot: the TiKV adapter keeps its snapshots at snapshot isolation (C11-R19)", 1)
+	{
+		sub11 := newResult("C11")
+		checkSnapshotIsolationKept(p, sub11, "C11-R19")
+		for _, o := range sub11.Obls {
+			res.add("C03-R13", o.Rule+" "+o.Construct, o.Status, o.Pos, o.Detail)
+		}
+	}
+
 	// ---- R1 ----
 	sub2 := p.subResult("C02", tier)
 	for _, o := range sub2.Obls {
@@ -636,6 +645,41 @@ func checkCountMatchesAppends(p *Prog, res *Result, rule string) {
 			}
 		}
 		if len(incs) == 0 {
+			// the count is kept in a field of the worker: the object outlives the attempt (a failed attempt is retried
+			// on the same worker), so the field must be reset where the attempt starts
+			for _, b := range f.Blocks {
+				ret, ok := b.Instrs[len(b.Instrs)-1].(*ssa.Return)
+				if !ok || len(ret.Results) == 0 {
+					continue
+				}
+				for _, v := range resolveAll(ret.Results[0]) {
+					ld, ok := v.(*ssa.UnOp)
+					if !ok || ld.Op != token.MUL {
+						continue
+					}
+					fa, ok := ld.X.(*ssa.FieldAddr)
+					if !ok {
+						continue
+					}
+					reset := false
+					for _, b2 := range f.Blocks {
+						for _, ins := range b2.Instrs {
+							st, ok := ins.(*ssa.Store)
+							if !ok {
+								continue
+							}
+							fa2, ok := st.Addr.(*ssa.FieldAddr)
+							if ok && fieldOf(fa2) == fieldOf(fa) && isZeroConst(st.Val) && loopOf(b2) == nil && b2.Dominates(appends[0].Block()) {
+								reset = true
+							}
+						}
+					}
+					if !reset {
+						n++
+						res.bad(rule, fmt.Sprintf("%s: the returned count belongs to this attempt", funcName(f)), p.pos(ret.Pos()), "the count that is returned is kept in field "+fieldOf(fa).Name()+" of the worker, which is not reset where the attempt starts: a worker that is retried after a failed attempt adds the keys of the new attempt to those it counted before, and Count answers more keys than Range returns")
+					}
+				}
+			}
 			continue
 		}
 		for inc := range incs {
